@@ -877,7 +877,9 @@ class Unit:
                 if self is other:
                     amnt = ONE
                 else:
-                    if self._equiv is None or other._equiv is None:
+                    if (self._qty_cls.ref_unit is None
+                            or self._equiv is None or other._equiv is None):
+                        # no common scale
                         raise UnitConversionError(
                             "Can't devide '%s' and '%s'.", self, other) \
                             from None
